@@ -164,7 +164,25 @@ End SMap.
 Definition cprog (m : cmode) : blk -> blk := smap_b (cexp m false).
 
 (* ---------------- print: the tokens the formatter writes ---------------- *)
-Record cfg0 := { windows0 : bool; spaces0 : bool; width0 : nat; style0 : QuoteMore.style; callp0 : cmode; space0 : smode }.
+(* collapse_simple_statement (context.rs should_collapse_simple_functions / should_collapse_simple_conditionals) *)
+Inductive collapse := CNever | CFunction | CConditional | CAlways.
+Definition collapse_fun (m : collapse) : bool := match m with CFunction | CAlways => true | _ => false end.
+Definition collapse_if (m : collapse) : bool := match m with CConditional | CAlways => true | _ => false end.
+Record cfg0 := { windows0 : bool; spaces0 : bool; width0 : nat; style0 : QuoteMore.style; callp0 : cmode; space0 : smode; collapse0 : collapse }.
+(* trivia_util.rs is_block_simple, without comments anywhere in the block (stmt.rs is_if_guard, functions.rs
+   should_collapse_function_body): one statement that is a return, a break, a call, or a local / an assignment with one
+   name and at most one value.  (In this fragment every expression is "simple": there are no function bodies.) *)
+Definition simple_stmt (s : stmt) : bool :=
+  match s with
+  | SReturn _ | SBreak | SCall _ => true
+  | SLocal [_] es | SAssign [_] es => Nat.leb (List.length es) 1
+  | _ => false
+  end.
+Definition simple_blk (b : blk) : option stmt :=
+  match b with Blk [Item [] _ s None] [] => if simple_stmt s then Some s else None | _ => None end.
+Definition if_guard (c : cfg0) (t : blk) (r : els) : option stmt :=
+  if collapse_if (collapse0 c) then match r with NoElse => simple_blk t | _ => None end else None.
+Definition fun_guard (c : cfg0) (b : blk) : option stmt := if collapse_fun (collapse0 c) then simple_blk b else None.
 Definition kw (s : string) : tok := TSym (str s).
 Definition sp : tok := TWs [SP].
 Definition eol (c : cfg0) : tok := TWs (if windows0 c then [CR; LF] else [LF]).
@@ -235,20 +253,37 @@ Definition ptrivia (d : nat) (tv : trivia) : list tok :=
   List.concat (map (fun bc : bool * bytes => (if fst bc then [eol c] else []) ++ indent c d ++ [TLineCom (snd bc); eol c]) tv).
 Definition ptrail (t : option bytes) : list tok := match t with Some x => [sp; TLineCom x] | None => [] end.
 Definition blk_empty (b : blk) : bool := match b with Blk [] [] => true | _ => false end.
-(* one statement per line: indentation, the statement, the line ending.
-   The lines of a block are written with map / concat so that the unfolding equations hold by computation. *)
-Fixpoint pstmt (d : nat) (s : stmt) {struct s} : list tok :=
-  let fbody (b : blk) : list tok :=
-    if blk_empty b then [sp; kw "end"] else eol c :: pblk (S d) b ++ indent c d ++ [kw "end"] in
+(* the statements that have no block inside: their tokens do not depend on the indentation *)
+Definition psimple (s : stmt) : list tok :=
   match s with
   | SLocal ns [] => kw "local" :: sp :: pnames ns
   | SLocal ns es => kw "local" :: sp :: pnames ns ++ sp :: kw "=" :: sp :: pexps es
   | SAssign vs es => pexps vs ++ sp :: kw "=" :: sp :: pexps es
   | SCall e => pexp e
+  | SReturn [] => [kw "return"]
+  | SReturn es => kw "return" :: sp :: pexps es
+  | SBreak => [kw "break"]
+  | _ => []
+  end.
+(* one statement per line: indentation, the statement, the line ending.
+   The lines of a block are written with map / concat so that the unfolding equations hold by computation. *)
+Fixpoint pstmt (d : nat) (s : stmt) {struct s} : list tok :=
+  let fbody (b : blk) : list tok :=
+    if blk_empty b then [sp; kw "end"]
+    else match fun_guard c b with
+         | Some s1 => sp :: psimple s1 ++ [sp; kw "end"]         (* function f() return x end *)
+         | None => eol c :: pblk (S d) b ++ indent c d ++ [kw "end"]
+         end in
+  match s with
+  | SLocal _ _ | SAssign _ _ | SCall _ | SReturn _ | SBreak => psimple s
   | SDo b => kw "do" :: eol c :: pblk (S d) b ++ indent c d ++ [kw "end"]
   | SWhile e b => kw "while" :: sp :: pexp e ++ sp :: kw "do" :: eol c :: pblk (S d) b ++ indent c d ++ [kw "end"]
   | SRepeat b e => kw "repeat" :: eol c :: pblk (S d) b ++ indent c d ++ kw "until" :: sp :: pexp e
-  | SIf e t r => kw "if" :: sp :: pexp e ++ sp :: kw "then" :: eol c :: pblk (S d) t ++ pels d r ++ indent c d ++ [kw "end"]
+  | SIf e t r =>
+    match if_guard c t r with
+    | Some s1 => kw "if" :: sp :: pexp e ++ sp :: kw "then" :: sp :: psimple s1 ++ [sp; kw "end"]      (* if x then return end *)
+    | None => kw "if" :: sp :: pexp e ++ sp :: kw "then" :: eol c :: pblk (S d) t ++ pels d r ++ indent c d ++ [kw "end"]
+    end
   | SNumFor v a b st body =>
     kw "for" :: sp :: TIdent v :: sp :: kw "=" :: sp :: pexp a ++ kw "," :: sp :: pexp b ++
     (match st with Some x => kw "," :: sp :: pexp x | None => [] end) ++ sp :: kw "do" :: eol c :: pblk (S d) body ++ indent c d ++ [kw "end"]
@@ -257,9 +292,6 @@ Fixpoint pstmt (d : nat) (s : stmt) {struct s} : list tok :=
   | SFunction p m ps va body =>
     kw "function" :: sp :: dotted p ++ (match m with Some n => [kw ":"; TIdent n] | None => [] end) ++ pparams c ps va ++ fbody body
   | SLocalFunction n ps va body => kw "local" :: sp :: kw "function" :: sp :: TIdent n :: pparams c ps va ++ fbody body
-  | SReturn [] => [kw "return"]
-  | SReturn es => kw "return" :: sp :: pexps es
-  | SBreak => [kw "break"]
   end
 with pels (d : nat) (r : els) {struct r} : list tok :=
   match r with
